@@ -167,10 +167,13 @@ def run(ctx):  # noqa: C901, PLR0912, PLR0915
         ok = bool(hnodes) and not any(g.path_exists(g.entry, d, avoid=[rn] + hnodes) for d, _ in disp)
         # ... and every such handler sets `fault`, which makes the fault gate return before dispatching
         for h in (trys[-1].handlers if trys else []):
-            sets_fault = any(isinstance(x, ast.Assign) and any(isinstance(t, ast.Name) and t.id == 'fault'
-                                                              for t in x.targets)
-                             and not (isinstance(x.value, ast.Constant) and x.value.value is None)
-                             for x in h.body)
+            # `fault = X` or `a, b, fault = p, q, X` anywhere in the handler (element-wise for tuple assignments)
+            sets_fault = False
+            for hn in g.real_nodes():
+                if hn.kind == 'stmt' and isinstance(hn.stmt, ast.Assign) and any(hn.stmt is y for y in ast.walk(h)):
+                    v = g.def_value(hn, 'fault')
+                    if v is not None and not (isinstance(v, ast.Constant) and v.value is None):
+                        sets_fault = True
             ok = ok and sets_fault
     ctx.ob('C13.R2', 'validated read dominates dispatch', ok,
            'on_post is reached only after a completed read_received_message(request) with validation left on',
@@ -238,7 +241,7 @@ def run(ctx):  # noqa: C901, PLR0912, PLR0915
         if fi.module is not hr:
             continue
         for w in walk_no_nested(fi.node):
-            if not isinstance(w, ast.While):
+            if not isinstance(w, ast.While) or getattr(w, '_inline_wrapper', False):
                 continue
             reads_in = []
             for n in ast.walk(w):
@@ -309,7 +312,7 @@ def run(ctx):  # noqa: C901, PLR0912, PLR0915
                'sdc11073.wsdiscovery.networkingthread.NetworkingThread._run_q_read']
     for q in workers:
         fi = repo.func(q)
-        loops = [w for w in walk_no_nested(fi.node) if isinstance(w, ast.While)]
+        loops = [w for w in walk_no_nested(fi.node) if isinstance(w, ast.While) and not getattr(w, '_inline_wrapper', False)]
         if not loops:
             raise AnalysisError(f'C13.R5: no loop in worker {q}')
         w = loops[0]
